@@ -9,9 +9,33 @@ from ..domains.index import Shaped, parity_classes, ptxt
 from ..domains.normdom import install_pi, Sym
 
 
+def watch_coincidences(it, dom):
+    """Mark (and let Interp.run drop) paths that exist only because two DIFFERENT symbolic quantities were assumed equal
+    (`a == b` taken True for non-identical a, b, or `a != b` taken False): such a path describes inputs that another
+    context covers exactly (the one that identifies the two symbols), so it is skipped where it arises instead of being
+    judged with symbols that no longer describe it."""
+    import ast as _ast
+    from ..core.interp import Const as _Const
+    if getattr(dom, '_watching', False):
+        return
+    dom._watching = True
+    prev = getattr(dom, 'on_branch', None)
+
+    def on_branch(test, truth, frame):
+        if prev is not None:
+            prev(test, truth, frame)
+        if isinstance(test, _ast.Compare) and len(test.ops) == 1 and ((truth and isinstance(test.ops[0], _ast.Eq)) or ((not truth) and isinstance(test.ops[0], _ast.NotEq))):
+            l, r = it.ev(test.left, frame), it.ev(test.comparators[0], frame)
+            if repr(l) != repr(r) and not isinstance(l, _Const) and not isinstance(r, _Const):
+                it.emit('coincidence', test=_ast.unparse(test))
+    dom.on_branch = on_branch
+    dom.skip_coincidences = True
+
+
 def mk(db, par):
     dom = KernelDomain(parities=par)
     it = install_pi(Interp(db, dom))
+    watch_coincidences(it, dom)
     return it, dom
 
 
